@@ -98,11 +98,14 @@ def delivered (valid : Nat → Bool) (W : World) (new : PodObj) : PodW :=
 def deliver (valid : Nat → Bool) (W : World) (new : PodObj) : World := fun u =>
   if u = new.uid then some (delivered valid W new) else W u
 
+/-- a delete event (or the replacement of the object by one with another UID) for `o`. -/
+def markDeleted (W : World) (o : PodObj) : World := fun u =>
+  if u = o.uid then some { obj := o, deleted := true, fresh := false, everOK := prevEver W o.uid } else W u
+
 def track (valid : Nat → Bool) (W : World) : Event → World
   | .podAdd n => deliver valid W n
-  | .podUpdate _ n => deliver valid W n
-  | .podDelete o => fun u =>
-      if u = o.uid then some { obj := o, deleted := true, fresh := false, everOK := prevEver W o.uid } else W u
+  | .podUpdate o n => if o.uid ≠ n.uid then deliver valid (markDeleted W o) n else deliver valid W n
+  | .podDelete o => markDeleted W o
   | .topo _ _ => W
   | .other => W
 
@@ -112,8 +115,13 @@ def track (valid : Nat → Bool) (W : World) : Event → World
 def EventWF (W : World) : Event → Prop
   | .podAdd n => PodOK n.alloc ∧
       ∀ w, W n.uid = some w → w.deleted = false → (w.obj.node = 0 ∨ w.obj.node = n.node)
-  | .podUpdate o n => PodOK n.alloc ∧ o.uid = n.uid ∧ (o.node ≠ 0 → n.node = o.node ∨ n.node = 0) ∧
-      ∀ w, W n.uid = some w → w.deleted = false → w.obj.node = o.node
+  | .podUpdate o n => PodOK n.alloc ∧
+      (o.uid = n.uid → (o.node ≠ 0 → n.node = o.node ∨ n.node = 0) ∧
+        ∀ w, W n.uid = some w → w.deleted = false → w.obj.node = o.node) ∧
+      -- the object was replaced by one with another UID (deleted and re-created under the same name while the watch
+      -- was down): a delete of `o` followed by an add of `n`
+      (o.uid ≠ n.uid → (∀ w, W o.uid = some w → w.deleted = false → (w.obj.node = 0 ∨ o.node = w.obj.node)) ∧
+        ∀ w, markDeleted W o n.uid = some w → w.deleted = false → (w.obj.node = 0 ∨ w.obj.node = n.node))
   | .podDelete o => ∀ w, W o.uid = some w → w.deleted = false → (w.obj.node = 0 ∨ o.node = w.obj.node)
   | .topo _ _ => True
   | .other => True
@@ -364,14 +372,14 @@ theorem einv_deliver {M : Mgr} {W : World} (h : EInv M W) (old : Option PodObj) 
 /-- OnDelete keeps the invariant. -/
 theorem einv_delete {M : Mgr} {W : World} (h : EInv M W) (o : PodObj)
     (hwf : ∀ w, W o.uid = some w → w.deleted = false → (w.obj.node = 0 ∨ o.node = w.obj.node)) :
-    EInv ((decodeDelete o).foldl Mgr.apply M) (track M.valid W (.podDelete o)) := by
-  have hWo : ∀ u', u' ≠ o.uid → track M.valid W (.podDelete o) u' = W u' := by
-    intro u' hu; simp [track, hu]
-  have hself : track M.valid W (.podDelete o) o.uid =
-      some { obj := o, deleted := true, fresh := false, everOK := prevEver W o.uid } := by simp [track]
-  have hfr : ∀ w, track M.valid W (.podDelete o) o.uid = some w → w.fresh = false := by
+    EInv ((decodeDelete o).foldl Mgr.apply M) (markDeleted W o) := by
+  have hWo : ∀ u', u' ≠ o.uid → markDeleted W o u' = W u' := by
+    intro u' hu; simp [markDeleted, hu]
+  have hself : markDeleted W o o.uid =
+      some { obj := o, deleted := true, fresh := false, everOK := prevEver W o.uid } := by simp [markDeleted]
+  have hfr : ∀ w, markDeleted W o o.uid = some w → w.fresh = false := by
     intro w hw; rw [hself] at hw; cases hw; rfl
-  have huid : ∀ w, track M.valid W (.podDelete o) o.uid = some w → w.obj.uid = o.uid := by
+  have huid : ∀ w, markDeleted W o o.uid = some w → w.obj.uid = o.uid := by
     intro w hw; rw [hself] at hw; cases hw; rfl
   have honly : ∀ m p, findPod (M.L m).pods o.uid = some p → m = o.node := by
     intro m p hp
@@ -391,15 +399,40 @@ theorem einv_delete {M : Mgr} {W : World} (h : EInv M W) (o : PodObj)
     simp only [List.foldl_cons, List.foldl_nil]
     exact einv_release o.uid o.node h honly hWo hfr huid
 
+theorem apply_valid (M : Mgr) (op : MOp) : (M.apply op).valid = M.valid := by
+  cases op with
+  | update n p => simp only [Mgr.apply]; split <;> rfl
+  | release n u => rfl
+
+theorem foldl_apply_valid (ops : List MOp) : ∀ M : Mgr, (ops.foldl Mgr.apply M).valid = M.valid := by
+  induction ops with
+  | nil => intro M; rfl
+  | cons op ops ih => intro M; simp only [List.foldl_cons]; rw [ih, apply_valid]
+
 theorem einv_estep {s : Mgr × World} (h : EInv s.1 s.2) (e : Event) (hwf : EventWF s.2 e) :
     EInv (estep s e).1 (estep s e).2 := by
   cases e with
   | podAdd n =>
     exact einv_deliver h none n hwf.1 (by intro o ho; cases ho) (fun _ => hwf.2)
   | podUpdate o n =>
-    refine einv_deliver h (some o) n hwf.1 ?_ (by intro ho; cases ho)
-    intro o' ho'; cases ho'
-    exact ⟨hwf.2.1, hwf.2.2.1, hwf.2.2.2⟩
+    by_cases hu : o.uid = n.uid
+    · have hd : decode (.podUpdate o n) = decodeUpdate (some o) n := by
+        simp only [decode, ne_eq, hu, not_true_eq_false, ↓reduceIte]
+      have ht : track s.1.valid s.2 (.podUpdate o n) = deliver s.1.valid s.2 n := by
+        simp only [track, ne_eq, hu, not_true_eq_false, ↓reduceIte]
+      show EInv ((decode (.podUpdate o n)).foldl Mgr.apply s.1) (track s.1.valid s.2 (.podUpdate o n))
+      rw [hd, ht]
+      refine einv_deliver h (some o) n hwf.1 ?_ (by intro ho; cases ho)
+      intro o' ho'; cases ho'
+      exact ⟨hu, (hwf.2.1 hu).1, (hwf.2.1 hu).2⟩
+    · have hd : decode (.podUpdate o n) = decodeDelete o ++ decodeUpdate none n := by
+        simp only [decode, ne_eq, hu, not_false_eq_true, ↓reduceIte]
+      have ht : track s.1.valid s.2 (.podUpdate o n) = deliver s.1.valid (markDeleted s.2 o) n := by
+        simp only [track, ne_eq, hu, not_false_eq_true, ↓reduceIte]
+      show EInv ((decode (.podUpdate o n)).foldl Mgr.apply s.1) (track s.1.valid s.2 (.podUpdate o n))
+      rw [hd, ht, List.foldl_append, ← foldl_apply_valid (decodeDelete o) s.1]
+      exact einv_deliver (einv_delete h o (hwf.2.2 hu).1) none n hwf.1 (by intro o' ho'; cases ho')
+        (fun _ => (hwf.2.2 hu).2)
   | podDelete o => exact einv_delete h o hwf
   | topo n v => exact ⟨h.inv, h.recL, h.frsh, h.uidk⟩
   | other => exact h
@@ -420,5 +453,18 @@ theorem einv_erun (evs : List Event) (hwf : HistoryWF (Mgr.empty, fun _ => none)
     node's topology was valid and carried a well-formed allocation). -/
 def Settled (W : World) : Prop :=
   ∀ u w, W u = some w → w.deleted = false → w.obj.term = false → w.obj.node ≠ 0 → w.everOK = true → w.fresh = true
+
+theorem cnt_le_holdCount {pods : List PodAlloc} {p : PodAlloc} (hp : p ∈ pods) (c : Nat) :
+    cnt p.cpus c ≤ holdCount pods c := by
+  unfold holdCount
+  induction pods with
+  | nil => cases hp
+  | cons q qs ih =>
+    simp only [List.map_cons, isum_cons]
+    have hrest : 0 ≤ isum (qs.map (fun p => cnt p.cpus c)) :=
+      isum_map_nonneg _ _ (fun x _ => cnt_nonneg x.cpus c)
+    rcases List.mem_cons.mp hp with rfl | hq
+    · omega
+    · have := ih hq; have := cnt_nonneg q.cpus c; omega
 
 end KoordVerif.C06
